@@ -49,6 +49,11 @@ def run(cx):
     if b:
         cx.expect('EXPR', 'circle_aabb2', cx.retval(b), '(call Aabb::new (call OPoint::sub (param center) (call Matrix::new (param radius) (param radius))) (call OPoint::add (param center) (call Matrix::new (param radius) (param radius))))',
                   'box = centre -+ (r, r)', where=b.file)
+    # the quadrant filter of arc_aabb2 is AngleInterval::new(angle0, angle).contains: a sweep of exactly +-2pi must stay a full turn
+    bi = cx.fn('common::angles::AngleInterval::new')
+    if bi:
+        from rules.C18 import angle_interval_new_shape
+        angle_interval_new_shape(cx, bi)
     b = cx.fn('geom2::aabb2::arc_aabb2')
     if b:
         r = cx.retval(b)
